@@ -295,10 +295,201 @@ static std::string range_str(const std::string& tree, const std::string& l, scan
 
 static scan_endpoint ep_parse(const std::string& s) { return s == "INF" ? scan_endpoint::INF : (s == "INC" ? scan_endpoint::INCLUSIVE : scan_endpoint::EXCLUSIVE); }
 
+// ------------------------------------------------------------------------------------------------------------------
+// cursor paused between two calls, one complete writer operation in the gap (C10: "every point at which the caller stops
+// or pauses"; early_abort: a modification of the node under the cursor must be reported)
+// ------------------------------------------------------------------------------------------------------------------
+struct GapOp {
+    bool is_put;
+    std::string key;
+};
+static std::string gap_case(const std::string& tree, bool r2l, bool early, int gap, const GapOp& w) {
+    return "gap;" + tree + ";" + (r2l ? "1" : "0") + ";" + (early ? "1" : "0") + ";" + std::to_string(gap) + ";" + (w.is_put ? "P" : "R") + ";" + hexs(w.key);
+}
+// returns "" or "symptom|detail"
+static std::string check_gap(const TreeSpec& t, bool r2l, bool early, int gap, const GapOp& w, bool& applied) {
+    Built b = build(t);
+    applied = false;
+    std::string err;
+    iscan_context* ctx = nullptr;
+    void* val = nullptr;
+    std::vector<std::string> produced;
+    status st = iscan_open(b.ti, "", scan_endpoint::INCLUSIVE, "", scan_endpoint::INF, ctx, val, dummycallback, r2l, early);
+    int steps = 0;
+    while (st == status::OK) {
+        produced.push_back(ctx->full_key());
+        if (steps == gap && !applied) {
+            // pause here: remember the border on top of the cursor stack
+            border_node* top = ctx->stack_empty() ? nullptr : ctx->stack_top().bn;
+            uint64_t v0 = 0, p0 = 0;
+            if (top != nullptr) {
+                auto body = top->version_.body_.load();
+                memcpy(&v0, &body, 8);
+                p0 = top->permutation_.body_.load();
+            }
+            std::string last = produced.back();
+            Model before = b.m;
+            if (w.is_put) {
+                std::string v = ykc::val_of(w.key, 2);
+                ykc::t_put(b.tk, b.ti, w.key, v);
+                b.m[w.key] = v;
+            } else {
+                ykc::t_remove(b.tk, b.ti, w.key);
+                b.m.erase(w.key);
+            }
+            applied = true;
+            bool top_changed = false;
+            if (top != nullptr) {
+                auto info = ykalloc::lookup(top);
+                auto body = top->version_.body_.load();
+                uint64_t v1 = 0;
+                memcpy(&v1, &body, 8);
+                uint64_t p1 = top->permutation_.body_.load();
+                top_changed = v1 != v0 || p1 != p0;
+                (void) info;
+            }
+            st = iscan_next(ctx, val);
+            if (early && top_changed) {
+                if (st != status::WARN_CONCURRENT_OPERATIONS) {
+                    err = std::string("early_abort_ignored|the border node under the cursor was modified in the pause but iscan_next returned ") + ykc::st_name(st);
+                }
+                break;
+            }
+            // every key present before and after the write, beyond the last produced key, must still come, in order
+            std::vector<std::string> must;
+            for (auto& kv : before) {
+                if (b.m.count(kv.first) == 0) continue;
+                if (!r2l && kv.first > last) must.push_back(kv.first);
+                if (r2l && kv.first < last) must.push_back(kv.first);
+            }
+            if (r2l) std::reverse(must.begin(), must.end());
+            std::vector<std::string> rest;
+            int guard = 0;
+            while (st == status::OK && guard++ < 400) {
+                rest.push_back(ctx->full_key());
+                st = iscan_next(ctx, val);
+            }
+            if (st == status::WARN_CONCURRENT_OPERATIONS && early) break; // allowed to give up (a node it passes was modified)
+            if (st != status::OK_SCAN_END) {
+                err = std::string("status|iteration after the pause ended with ") + ykc::st_name(st);
+                break;
+            }
+            // monotone, no repeats of already produced keys
+            std::string prev = last;
+            for (auto& k : rest) {
+                bool ok = r2l ? k < prev : k > prev;
+                if (!ok) {
+                    err = "order|after the pause the cursor produced " + ykc::hex(k) + " after " + ykc::hex(prev);
+                    break;
+                }
+                prev = k;
+            }
+            if (err.empty()) {
+                size_t pos = 0;
+                for (auto& k : must) {
+                    while (pos < rest.size() && rest[pos] != k) pos++;
+                    if (pos == rest.size()) {
+                        err = "lost_key|key " + ykc::hex(k) + " was present during the whole iteration but was not produced after the pause";
+                        break;
+                    }
+                }
+            }
+            if (err.empty()) {
+                for (auto& k : rest) {
+                    if (before.count(k) == 0 && b.m.count(k) == 0) {
+                        err = "foreign_key|cursor produced " + ykc::hex(k) + " which never existed";
+                        break;
+                    }
+                }
+            }
+            break;
+        }
+        steps++;
+        st = iscan_next(ctx, val);
+    }
+    if (ctx != nullptr) iscan_close(ctx);
+    unbuild(b);
+    return err;
+}
+
+static void part_gap(const hm::Args& a, bool quick) {
+    auto shapes = ykc::all_shapes();
+    const std::vector<std::string> use = {"B3", "B15", "I2_8_8", "I2_1_8", "I2_8_1", "I3_8_1_8", "I2_8_15", "L1one", "L1_3", "L1full", "L1I2_1_8", "L2"};
+    int idx = 0;
+    for (auto& sn : use) {
+        if ((idx++ % a.nshards) != a.shard) continue;
+        const ykc::Shape* sh = ykc::find_shape(shapes, sn);
+        TreeSpec t;
+        t.name = "seed_" + sh->name;
+        t.keys = sh->inserts;
+        t.removes = sh->removes;
+        std::set<std::string> present(sh->inserts.begin(), sh->inserts.end());
+        for (auto& r : sh->removes) present.erase(r);
+        std::vector<GapOp> ops;
+        std::set<std::string> putkeys;
+        for (auto& kv : sh->pal) putkeys.insert(kv.second);
+        size_t step = quick ? 3 : 1;
+        size_t i = 0;
+        for (auto& k : present) {
+            if ((i++ % step) == 0) {
+                ops.push_back({false, k});
+                putkeys.insert(k + "5");
+                putkeys.insert(k);
+            }
+        }
+        putkeys.insert("00");
+        putkeys.insert("zzzz");
+        for (auto& k : putkeys) ops.push_back({true, k});
+        Report rp;
+        rp.part = "gap/" + t.name;
+        double s0 = ykmc::mono_now();
+        std::map<std::string, int> seen;
+        for (int r2l = 0; r2l < 2; ++r2l) {
+            for (int early = 0; early < 2; ++early) {
+                for (int gap = 0; gap <= int(present.size()); ++gap) {
+                    for (auto& w : ops) {
+                        bool applied = false;
+                        std::string e = check_gap(t, r2l != 0, early != 0, gap, w, applied);
+                        rp.evaluations++;
+                        if (applied) rp.nontrivial++;
+                        if (!e.empty()) {
+                            std::string sym = "iscan:gap_" + e.substr(0, e.find('|'));
+                            if (seen[sym]++ == 0 && rp.viol.size() < 6) {
+                                std::string rs = gap_case(t.name, r2l != 0, early != 0, gap, w);
+                                rp.viol.emplace_back(sym, e.substr(e.find('|') + 1) + " || case " + rs);
+                                rp.repro.push_back(rs);
+                            }
+                        }
+                    }
+                }
+            }
+        }
+        rp.states = long(ops.size());
+        rp.transitions = rp.evaluations;
+        rp.samples.push_back(gap_case(t.name, false, true, 2, ops[ops.size() / 2]));
+        rp.wall = ykmc::mono_now() - s0;
+        // signature class carries the shape (known findings are per shape family)
+        printf("{\"engine\":\"ykenum\",\"part\":\"%s\",\"scenario\":\"%s\",\"sigclass\":\"gap:%s\",\"states\":%ld,\"transitions\":%ld,\"evaluations\":%ld,"
+               "\"nontrivial\":%ld,\"exhaustive\":true,\"wall\":%.2f,\"samples\":[\"%s\"],\"violations\":[",
+               hm::jesc(rp.part).c_str(), hm::jesc(rp.part).c_str(), sh->name.c_str(), rp.states, rp.transitions, rp.evaluations, rp.nontrivial, rp.wall,
+               hm::jesc(rp.samples[0]).c_str());
+        for (size_t k = 0; k < rp.viol.size(); ++k) {
+            printf("%s{\"symptom\":\"%s\",\"detail\":\"%s\",\"repro\":\"%s\"}", k != 0 ? "," : "", hm::jesc(rp.viol[k].first).c_str(),
+                   hm::jesc(rp.viol[k].second).c_str(), hm::jesc(rp.repro[k]).c_str());
+        }
+        printf("]}\n");
+        fflush(stdout);
+    }
+}
+
 int main(int argc, char** argv) {
     hm::Args a = hm::parse(argc, argv);
     std::string part = a.extra.empty() ? "scan" : a.extra[0]; // scan | iscan
     bool quick = a.tier == "quick";
+    if (part == "gap" && a.replay_scenario.empty()) {
+        part_gap(a, quick);
+        return 0;
+    }
     auto trees = make_trees(quick && a.replay_scenario.empty());
     const scan_endpoint eps[3] = {scan_endpoint::INCLUSIVE, scan_endpoint::EXCLUSIVE, scan_endpoint::INF};
     if (!a.replay_scenario.empty()) {
@@ -307,6 +498,20 @@ int main(int argc, char** argv) {
         std::istringstream in(a.replay_scenario);
         std::string tok;
         while (std::getline(in, tok, ';')) f.push_back(tok);
+        if (!f.empty() && f[0] == "gap" && f.size() >= 7) {
+            auto shapes = ykc::all_shapes();
+            const ykc::Shape* sh = ykc::find_shape(shapes, f[1].substr(5));
+            if (sh == nullptr) return 2;
+            TreeSpec t;
+            t.name = f[1];
+            t.keys = sh->inserts;
+            t.removes = sh->removes;
+            GapOp w{f[5] == "P", unhex(f[6])};
+            bool applied = false;
+            std::string e = check_gap(t, f[2] == "1", f[3] == "1", atoi(f[4].c_str()), w, applied);
+            printf("{\"replay\":\"%s\",\"symptom\":\"%s\"}\n", hm::jesc(a.replay_scenario).c_str(), hm::jesc(e).c_str());
+            return e.empty() ? 0 : 1;
+        }
         if (f.size() < 8) return 2;
         auto all = make_trees(false);
         for (auto& t : all) {
